@@ -83,9 +83,18 @@ def supercell_unit(u, res):
                 sc = Supercell(ucell, S, is_old_style=old)
                 return sc, sc.cell, sc.scaled_positions, sc.masses, sc.magnetic_moments, list(sc.symbols)
         npaths = 0
-        for eng, (sc, cell, spos, masses, magmoms, symbols) in symnp.explore(run, max_paths=64):
+        style = "classic" if old else "snf"
+        try:
+            explored = list(symnp.explore(run, max_paths=64))
+        except (RuntimeError, AssertionError, ValueError, IndexError) as exc:
+            # the real constructor refused (or crashed on) a valid input: confirm on ordinary arrays at the anchor geometry
+            ok2, what = replay_construct(S, old)
+            if ok2:
+                res.violations.append({"key": "%s:supercell:%s:%s:%s:rejected" % (PID, u[1], mode, style), "what": what, "replay": {"S": S.tolist(), "old": old}})
+                continue
+            raise
+        for eng, (sc, cell, spos, masses, magmoms, symbols) in explored:
             npaths += 1
-            style = "classic" if old else "snf"
             pc = A + eng.pc + eng.side
             res.stat("paths"); res.stat("engine_queries", eng.nq); res.stat("concretised", eng.nconcretised)
             n = len(symbols)
@@ -176,6 +185,19 @@ def _decide(res, verdict, model, key, Lv, Xv, S, old, sub):
     X = np.array([[model_value(model, Xv[a][j]) for j in range(3)] for a in range(2)], dtype=float)
     ok, what = replay_supercell(L, X, S, old, sub)
     (res.violations if ok else res.unconfirmed).append({"key": key, "what": what, "replay": {"L": L.tolist(), "X": X.tolist(), "S": S.tolist(), "old": old, "sub": sub}})
+
+
+@symnp.outside_session
+def replay_construct(S, old):
+    """does the real Supercell constructor accept this (valid) supercell matrix on the anchor cell?"""
+    from phonopy.structure.atoms import PhonopyAtoms
+    from phonopy.structure.cells import Supercell
+    uc = PhonopyAtoms(symbols=["H", "He"], scaled_positions=ANCHOR_POS.copy(), cell=ANCHOR_L.copy(), masses=[1.5, 4.25], magnetic_moments=[0.5, -1.5])
+    try:
+        sc = Supercell(uc, S, is_old_style=old)
+    except Exception as exc:
+        return True, "Supercell(unit cell, S=%s, is_old_style=%s) fails for a valid supercell matrix: %s: %s" % (np.array(S).tolist(), old, type(exc).__name__, exc)
+    return False, "constructed (%d atoms)" % len(sc)
 
 
 @symnp.outside_session
